@@ -108,6 +108,44 @@ fn sweep(table: &str, c: u32, l: &str, r: &str, fl: Option<usize>, fr: Option<us
     }
 }
 
+/// value of variable k at truth-table index i over n variables (variable 0 = most significant bit)
+fn bit(i: usize, k: usize, n: usize) -> bool { (i >> (n - 1 - k)) & 1 == 1 }
+
+/// a small block over an interleaved subset of the variables: xor / majority / if-then-else / and / or of literals
+fn block_tt(rng: &mut Rng64, n: usize) -> TT {
+    let k = 2 + rng.below(3) as usize; // 2..4 variables
+    let stride = 1 + rng.below(3) as usize;
+    let offset = rng.below(n as u64) as usize;
+    let mut vars: Vec<usize> = Vec::new();
+    for j in 0..k {
+        let v = (offset + stride * j) % n;
+        if !vars.contains(&v) { vars.push(v); }
+    }
+    let neg: Vec<bool> = vars.iter().map(|_| rng.chance(1, 3)).collect();
+    let kind = rng.below(5);
+    (0..(1usize << n)).map(|i| {
+        let ls: Vec<bool> = vars.iter().zip(neg.iter()).map(|(v, ng)| bit(i, *v, n) ^ *ng).collect();
+        match kind {
+            0 => ls.iter().fold(false, |a, b| a ^ *b),
+            1 => 2 * ls.iter().filter(|b| **b).count() >= ls.len(),
+            2 => if ls.len() >= 3 { if ls[0] { ls[1] } else { ls[2] } } else { ls[0] ^ ls[ls.len() - 1] },
+            3 => ls.iter().all(|b| *b),
+            _ => ls.iter().any(|b| *b),
+        }
+    }).collect()
+}
+
+/// a small formula: 1..4 blocks joined by and / or / xor
+fn formula_tt(rng: &mut Rng64, n: usize) -> TT {
+    let mut t = block_tt(rng, n);
+    for _ in 0..rng.below(4) {
+        let u = block_tt(rng, n);
+        let op = rng.below(3);
+        t = t.iter().zip(u.iter()).map(|(a, b)| match op { 0 => *a && *b, 1 => *a || *b, _ => *a ^ *b }).collect();
+    }
+    t
+}
+
 const CONNS: [u32; 6] = [8, 14, 6, 11, 4, 9];
 
 pub fn gen(tier: Tier, rng: &mut Rng64, out: &mut Out) {
@@ -178,6 +216,38 @@ pub fn gen(tier: Tier, rng: &mut Rng64, out: &mut Out) {
             5 => bdd_of_tt(n, &vec![rng.bool(); 1 << n]),
             _ => { let m = rng.below(7) as usize; random_bdd(rng, m) } // usually another variable count
         };
+        let (x, y) = if rng.bool() { (a, b) } else { (b, a) };
+        run("C05.cmp", &[fmt_bdd(&x), fmt_bdd(&y)], out);
+    }
+    // --- cmp_implies on larger, structured operands (6..12 variables, some up to 16): an implication holds by
+    //     construction between formulas whose supports are interleaved and only partially overlap, so that the
+    //     side-by-side walk of the two diagrams needs many more tasks than |a| + |b| nodes
+    let rounds = if thorough { 40000 } else { 2400 };
+    for i in 0..rounds {
+        let n = if i % 7 == 6 { 13 + rng.below(4) as usize } else { 6 + rng.below(7) as usize };
+        let f = formula_tt(rng, n);
+        let g = formula_tt(rng, n);
+        let h = formula_tt(rng, n);
+        let and = |x: &TT, y: &TT| -> TT { x.iter().zip(y.iter()).map(|(a, b)| *a && *b).collect() };
+        let or = |x: &TT, y: &TT| -> TT { x.iter().zip(y.iter()).map(|(a, b)| *a || *b).collect() };
+        let not = |x: &TT| -> TT { x.iter().map(|a| !*a).collect() };
+        let m = rng.below(n as u64) as usize; // the middle literal of a chain
+        let lit: TT = (0..(1usize << n)).map(|i| !bit(i, m, n)).collect(); // !x_m
+        let (ta, tb): (TT, TT) = match rng.below(10) {
+            0 => (and(&f, &g), f.clone()),                 // a = f & g  =>  b = f
+            1 => (f.clone(), or(&f, &h)),                  // a = f      =>  b = f | h
+            2 | 3 => (and(&f, &g), or(&f, &h)),            // a = f & g  =>  b = f | h
+            4 => (and(&lit, &g), or(&lit, &h)),            // a => !x_m => b
+            5 => (and(&and(&f, &g), &lit), or(&and(&f, &lit), &h)),
+            6 => (f.clone(), f.clone()),                   // equal
+            7 => (f.clone(), not(&f)),                     // a vs !a
+            8 => (and(&f, &g), and(&f, &h)),               // usually incomparable
+            _ => (or(&f, &g), or(&g, &h)),                 // usually incomparable
+        };
+        let mut a = bdd_of_tt(n, &ta);
+        let mut b = bdd_of_tt(n, &tb);
+        if rng.chance(1, 10) { a = noncanon_variant(rng, &a); }
+        if rng.chance(1, 10) { b = noncanon_variant(rng, &b); }
         let (x, y) = if rng.bool() { (a, b) } else { (b, a) };
         run("C05.cmp", &[fmt_bdd(&x), fmt_bdd(&y)], out);
     }
